@@ -425,11 +425,13 @@ def _add_operands(f, o):
             return None
         r = ds[0][3]["r"]
         if r["k"] == "bin" and r["op"] in ("Add", "AddWithOverflow", "AddUnchecked"):
-            k = vf.const_of_operand(f, r["r"])
-            try:
-                return r["l"], int(k)
-            except (TypeError, ValueError):
-                return None
+            for var, con in ((r["l"], r["r"]), (r["r"], r["l"])):  # x + k  or  k + x
+                k = vf.const_of_operand(f, con)
+                try:
+                    return var, int(k)
+                except (TypeError, ValueError):
+                    continue
+            return None
         if r["k"] == "use":
             q = vf.op_place(r["o"])
             if q is None:
